@@ -4,7 +4,7 @@ CONSTANTS
   MinPaths = 2
   MaxPaths = 2
   Outcomes = {"success", "panic", "failflag"}
-  Replies = {"sat_valid", "unsat", "unsat_rc1", "unsat_shared", "unknown"}
+  Replies = {"sat_valid", "unsat", "unsat_rc1", "unsat_shared", "unsat_nocore", "unknown"}
   Replies2 = {"unsat"}
   StuckReplies = {"unsat"}
   EarlySet = {FALSE}
